@@ -1283,7 +1283,13 @@ func (s *Sim) onAcceptedSwap(p *Pkt, in *PktInfo, c Flow, post []Flow) {
 		return
 	}
 	var outs []Flow
+	hypMod := authtypes.NewModuleAddress("hyperlane").String()
 	for _, f := range post {
+		if f.From == orb && f.To == hypMod {
+			// interchain gas payment charged to the orbiter account (known finding, reported by C02/C11)
+			s.violate("C02", "conservation", "bridge-fee-paid-by-orbiter-account cause=hyperlane-igp-fee-charged-to-orbiter-account", fmt.Sprintf("packet op=%d: the orbiter account paid %s%s to the Hyperlane module", p.Origin, f.Amt, f.Denom))
+			continue
+		}
 		if f.From == orb && f.To != pool {
 			outs = append(outs, f)
 		}
